@@ -158,4 +158,4 @@ def prebuild(root):
     """translators: regenerate coq/Generated/DigitGen.v from /repo/src/digit.rs (proved equal to Model/Digit.v in
     Proofs/DigitTie.v) and coq/Generated/Glue.v from the one-line projection functions of /repo/src (proved equal to the
     hand-written model in Proofs/GlueTie.v); the first translator error is returned"""
-    return run_translator(root, "rs2v_digit.py") or run_translator(root, "rs2v_glue.py") or run_translator(root, "rs2v_loops.py")
+    return run_translator(root, "rs2v_digit.py") or run_translator(root, "rs2v_glue.py", "C03") or run_translator(root, "rs2v_loops.py", "C03")
